@@ -445,7 +445,7 @@ PROPS['C14'].update({
 
 LEVEL_TEXT = {
     'C14': 'Seeded byte streams and fragmentation schedules through the real aggregate, chunk_stream, ts_sync and ts_check pipes: outputs are the accepted input octets in order, unit sizes respect the configuration, TS units match a reference parser and start with the sync octet, stream parsers give the same units however the stream is cut, release terminates and leaves nothing allocated. Evidence, not proof.',
-    'C12': 'Seeded request histories over chains of real pipes built on upipe_helper_output: after every operation each registered request is lodged exactly once at the terminal the chain currently leads to and nowhere else, answers reach the original requester once with the value given, nothing calls back after unregister or after the chain is released. Also across worker queues (answers delivered on the requester's thread) and, as bounds, over 53 more pipe types. Evidence, not proof.',
+    'C12': 'Seeded request histories over chains of real pipes built on upipe_helper_output: after every operation each registered request is lodged exactly once at the terminal the chain currently leads to and nowhere else, answers reach the original requester once with the value given, nothing calls back after unregister or after the chain is released. Also across worker queues (answers delivered on the thread of the requester) and, as bounds, over 53 more pipe types. Evidence, not proof.',
     'C01': 'Seeded pipeline histories biased towards lifetime edges (re-plumbing to NULL, release in mid-run, teardown orders, allocation failures): every pipe throws dead exactly once, sinks are never destroyed while referenced by the application, all managers and probes return to one reference, nothing stays allocated; the same over 53 more pipe types (sweep) and 14 sub-pipe families (super-pipe and sub-pipes released in any order). Evidence, not proof.',
     'C04': 'Seeded pipeline histories: ready first, dead exactly once and last, no event/data/flow definition after dead; every buffer reaches a sink under an accepted flow definition equal to the one in force (reference model and upstream getter), none after a rejection; the lifecycle clauses also over 53 more pipe types and 14 sub-pipe families, where the super-pipe must outlive its sub-pipes. Evidence, not proof.',
     'C05': 'Seeded pipeline histories against a reference model of every catalogue pipe: per sink the delivered sequence (numbers, payload, attributes, dates) equals the model, in order, exactly once; queues deliver held buffers first and in order, flush may only lose what was not delivered yet; 16 more pipe types documented never to drop deliver everything once their output takes data again, the loop ran and time passed, and leave the source pump unblocked. Evidence, not proof.',
